@@ -9,24 +9,31 @@ PROP_FILES = ["Props/C16.v"]
 WIDTH = 160          # terminal width of the ANSI / plain / quiet cases (every frame fits: ASSUMPTIONS)
 NARROW = 30          # second width of the section cases: the frame wraps inside its section
 RULE = ("call sequences over {start(), start(max'), advance(1/3/-2/0/max//4), set_progress(0/1/max-1/max/max+3/7), display, clear, "
-        "finish, set_message(plain short / plain long / tagged short / tagged long / empty), write_line on the section below} with "
+        "finish, set_message(plain short / plain long / tagged short / tagged long / empty / with characters beyond ASCII), write_line on the section below} with "
         "the clock advanced by {0, 10, 50, 200, 2000} ms before each call (virtual clock of exact fractions) x maxima "
         "{0,1,3,10,50,200} x bar widths 1..40 (bars without maximum too: their offset is double arithmetic, modelled bit for bit) x "
         "formats (built-in per verbosity; custom: one line with %message%, two lines with %message% / %elapsed% / %estimated%, one "
         "line with %elapsed% %remaining% %estimated%, two lines without a maximum) x min-interval {0.1, 0, 0.05} x max-interval "
         "{1, 0.5} x set_redraw_frequency {-, 1, 2, 5} x progress character {'>', tagged '>'} x ANSI / plain / section (a second section below, width 160 or 30) / quiet "
-        "outputs (and quiet+plain, plain section, quiet section): all sequences up to length 3 (quick) / 4 (thorough) for six base "
+        "outputs (and quiet+plain, plain section, quiet section; the ANSI kinds also on a stream that says it supports ANSI with an "
+        "AnsiFormatter that is NOT forced - what a terminal gives) x the minimum interval given to the constructor or afterwards to "
+        "min_seconds_between_redraws(0.5 / 0.05 / 0.2 / 0) x a format showing a message set under a name of its own (%title%: plain, "
+        "tagged, never set) x in an eighth of the random cases one or two long waits (59 s .. 2.3 days: every form of format_time): all sequences up to length 3 (quick) / 4 (thorough) for seven base "
         "set-ups (ANSI, plain, no maximum with width 7, section with redraw frequency 2 and writes below, verbose custom format "
-        "with tagged messages and min-interval 0.05, plain without maximum and min-interval 0) under uniform and mixed timings, "
+        "with tagged messages and min-interval 0.05, plain without maximum and min-interval 0, a terminal with an unforced formatter and the "
+        "interval 0.2 given to the setter and a named message) under uniform and mixed timings, "
         "random sequences up to length 60 over everything; every stream write with its clock value is compared and replayed on "
         "a terminal emulator (after every call on a section output); non-trivial = >= 2 frames; distinct by case")
 TRUSTED = ["virtual clock: time.time replaced by exact fractions, constant during one call; Base/Term.v as the terminal; pastel is "
            "modelled by Model/Markup.v and SectionOutput by Model/Section.v (tied by C11 / C15 and by this run)"]
 ASSUMPTIONS = ["the bar and empty-bar characters are the 1-cell defaults, the progress character is one visible cell ('>', also inside a tag); messages are one line of good markup (no line break, every tag "
                "closed); on a non-section ANSI output every frame is shorter than the terminal width (the line clause); "
-               "%estimated% / %remaining% without a maximum raise the documented RuntimeError (model and code agree on it)"]
+               "%estimated% / %remaining% without a maximum raise the documented RuntimeError (model and code agree on it)",
+               "a message under a name of its own is set once, before the first call (for the model it is a literal piece of the format); "
+               "the whole run lasts less than seven days (format_time answers None beyond: the frame then says 'None' - code and model)"]
 
 DTS = [0, 10, 50, 200, 2000]
+LONG_DTS = [59000, 61000, 3600000, 5400000, 7200000, 90000000, 129600000, 200000000]      # ms: up to 2.3 days
 # pieces: [0, text] literal, 1 current, 2 max, 3 bar, [4, spec] percent, [5, spec] elapsed, [6, spec] estimated, 7 message,
 # [8, spec] remaining; spec = [] | [0, n] right-justified | [1, n] left-justified
 CUSTOM = {
@@ -35,12 +42,17 @@ CUSTOM = {
     "c3": [[7], [0, " "], [1], [0, "/"], [2], [0, " ["], [3], [0, "] "], [4, []], [0, "% "], [5, []], [0, "|"], [8, [0, 9]], [0, "|"],
            [6, []]],
     "c4": [[0, " "], [1], [0, " ["], [3], [0, "]\n "], [7], [0, " "], [5, []]],
+    # [9, name]: a message set under a name of its own - set_message(text, name) - and shown by %name%
+    "c5": [[9, "title"], [0, ": "], [1], [0, "/"], [2], [0, " ["], [3], [0, "] "], [7]],
 }
 NEEDS_MAX = ("c2", "c3")
 NAMES = {1: "current", 2: "max", 3: "bar", 4: "percent", 5: "elapsed", 6: "estimated", 7: "message", 8: "remaining"}
 MSGS = ["working", "a longer message here", "<info>ok</info>", "<info>a considerably longer tagged message</info> <b>done</b>",
-        "p<fg=red>q</>r", ""]
+        "p<fg=red>q</>r", "",
+        "re\u00e7u: donn\u00e9es \u03bb\u0436", "<info>\u00e9t\u00e9</info> \u00fc"]      # one-cell characters beyond ASCII (appended: earlier cases name messages by text)
 PCHARS = ["<info>></info>", "<b>></b>"]        # a progress character carrying a tag: one visible cell
+TITLES = ["Downloading", "<comment>stage 2</comment> of 3"]      # the message named 'title' of format c5 (None: never set)
+MINSETS = [0.5, 0.05, 0.2, 0]       # min_seconds_between_redraws(v) called after the constructor (0: the call changes nothing)
 BELOW = ["below", "<info>two</info>\nlines", "a line of the section below that is longer than thirty cells"]
 
 
@@ -49,6 +61,8 @@ def fmt_string(pieces):
     for p in pieces:
         if p[0] == 0:
             out += p[1]
+        elif p[0] == 9:
+            out += "%" + p[1] + "%"
         else:
             sp = ""
             if len(p) > 1 and p[1]:
@@ -81,9 +95,18 @@ OPS = [[0, None], [0, 5], [1, 1], [1, 3], [1, -2], [2, 7], [3], [4], [5], [1, 0]
 
 def cfg_of(**kw):
     c = {"kind": "ansi", "verb": 0, "max": 10, "bw": 10, "min": 0.1, "fmt": None, "msg": None, "maxs": 1, "rf": None, "w": WIDTH,
-         "below": None, "pc": ">"}
+         "below": None, "pc": ">",
+         "out": None,        # None: a buffer with a forced AnsiFormatter / a PlainFormatter; "tty": a stream that supports ANSI with an
+                             # AnsiFormatter that is NOT forced (what a real terminal gives)
+         "minset": None,     # min_seconds_between_redraws(v) after the constructor
+         "named": None}      # the message named 'title' (format c5)
     c.update(kw)
     return c
+
+
+def min_interval(cfg):
+    """the configured minimum interval: the constructor's, or what the setter was given (it ignores values <= 0)"""
+    return cfg["minset"] if cfg["minset"] is not None and cfg["minset"] > 0 else cfg["min"]
 
 
 def norm_cfg(cfg):
@@ -106,6 +129,8 @@ def exhaustive_setups():
         (cfg_of(kind="section", max=3, bw=5, min=0, rf=2, below="below"), small + [[2, 3], [2, 6], [7, "x"]]),
         (cfg_of(verb=1, fmt="c1", msg=MSGS[1], min=0.05, pc=PCHARS[0]), small + [[2, 9], [2, 0], [6, MSGS[2]], [6, MSGS[3]]]),
         (cfg_of(kind="plain", max=0, bw=15, min=0), small + [[2, 1], [0, 0], [1, 0]]),
+        # a terminal (ANSI by the stream, formatter not forced), the minimum interval given to the setter, a named message
+        (cfg_of(out="tty", max=3, bw=6, min=0, minset=0.2, fmt="c5", named=TITLES[1], msg=MSGS[0]), small),
     ]
 
 
@@ -116,7 +141,7 @@ def gen(rng, tier, info):
     for cfg, al in exhaustive_setups():
         for k in range(1, depth + 1):
             for seq in itertools.product(range(len(al)), repeat=k):
-                for dts in ([0] * k, [200] * k, [50, 2000, 10, 0][:k]):
+                for dts in ([0] * k, [200] * k, [50, 2000, 10, 0][:k]) if cfg["minset"] is None else ([0] * k, [200] * k, [50, 200, 10, 0][:k]):
                     if k == 1 and dts != [0]:
                         continue
                     cases.append({"cfg": cfg, "ops": [[d, list(al[i])] for d, i in zip(dts, seq)]})
@@ -125,7 +150,7 @@ def gen(rng, tier, info):
         kind = rng.choice(["ansi", "ansi", "ansi", "plain", "plain", "section", "section", "section", "quiet",
                            rng.choice(["quietplain", "sectionplain", "quietsection"])])
         mx = rng.choice([0, 1, 3, 10, 50, 200])
-        fmt = rng.choice([None, None, None, "c1", "c2", "c3", "c4"])
+        fmt = rng.choice([None, None, None, "c1", "c2", "c3", "c4", "c5"])
         if fmt in NEEDS_MAX and mx == 0 and rng.random() < 0.9:
             fmt = "c4"     # %estimated% / %remaining% raise without a maximum (documented RuntimeError): kept rare
         sec = kind in ("section", "quietsection")
@@ -133,7 +158,10 @@ def gen(rng, tier, info):
                      fmt=fmt, msg=rng.choice([None, None] + MSGS), maxs=rng.choice([1, 1, 1, 0.5]), rf=rng.choice([None, None, 1, 2, 5]),
                      w=rng.choice([WIDTH, WIDTH, NARROW]) if sec else WIDTH,
                      below=rng.choice([None] + BELOW) if kind.startswith("section") or sec else None,
-                     pc=rng.choice([">"] * 5 + PCHARS))
+                     pc=rng.choice([">"] * 5 + PCHARS),
+                     out="tty" if is_ansi(kind) and rng.random() < 0.3 else None,
+                     minset=rng.choice(MINSETS) if rng.random() < 0.25 else None,
+                     named=rng.choice(TITLES + [None]) if fmt == "c5" else None)
         pool = [list(o) for o in OPS] + [[1, 1]] * 6 + [[1, max(1, mx // 4)]] + [[2, k] for k in set_values(mx)] \
             + [[6, m] for m in rng.sample(MSGS, 2)]
         if sec:
@@ -144,6 +172,11 @@ def gen(rng, tier, info):
             if o[0] == 0 and o[1] == 0 and fmt in NEEDS_MAX and rng.random() < 0.9:
                 continue
             ops.append([rng.choice(DTS), list(o)])
+        if ops and rng.random() < 0.12:
+            # a bar that runs for long: one or two long waits (minutes, hours, more than a day - every form format_time knows;
+            # the whole run stays under the seven days beyond which format_time answers None)
+            for _ in range(rng.choice([1, 2])):
+                ops[rng.randrange(len(ops))][0] = rng.choice(LONG_DTS)
         cases.append({"cfg": cfg, "ops": ops})
     info["exhaustive"] = True
     info["distribution"] = {"exhaustive": n_ex, "random": nrand, "depth": depth, "setups": len(exhaustive_setups())}
@@ -195,9 +228,13 @@ def wire(c):
             ops.append([dt, [o[0]]])
     custom = []
     if cfg["fmt"]:
-        custom = [[[p[0], S(p[1])] if p[0] == 0 else ([p[0], p[1]] if len(p) > 1 else [p[0]]) for p in CUSTOM[cfg["fmt"]]]]
+        # a named message is set once, before the first call: for the model it is a literal piece of the format (the
+        # placeholder itself when no message of that name was set - ProgressBar leaves an unknown placeholder as it is)
+        named = lambda p: [0, S(cfg["named"] if cfg["named"] is not None else "%" + p[1] + "%")]
+        custom = [[named(p) if p[0] == 9 else [p[0], S(p[1])] if p[0] == 0 else ([p[0], p[1]] if len(p) > 1 else [p[0]])
+                   for p in CUSTOM[cfg["fmt"]]]]
     return [int(is_ansi(cfg["kind"])), int(is_quiet(cfg["kind"])), int(is_section(cfg["kind"])), cfg["verb"], cfg["max"], cfg["bw"]] \
-        + fr(cfg["min"]) + fr(cfg["maxs"]) + [[] if cfg["rf"] is None else [cfg["rf"]], custom,
+        + fr(min_interval(cfg)) + fr(cfg["maxs"]) + [[] if cfg["rf"] is None else [cfg["rf"]], custom,
                                                [] if cfg["msg"] is None else [S(cfg["msg"])], T0, ops, cfg["w"],
                                                [w_style(s) for s in default_set()], [] if cfg["below"] is None else [S(cfg["below"])],
                                                S(cfg["pc"])]
@@ -225,7 +262,10 @@ def run_impl(c):
         from clikit.ui.components import ProgressBar
         Clock.now = T0
         kind = cfg["kind"]
-        io = BufferedIO(formatter=AnsiFormatter(forced=True) if is_ansi(kind) else PlainFormatter())
+        if cfg["out"] == "tty" and is_ansi(kind):
+            io = tty_io()
+        else:
+            io = BufferedIO(formatter=AnsiFormatter(forced=True) if is_ansi(kind) else PlainFormatter())
         secs = []
         target = io
         if is_section(kind):
@@ -240,6 +280,8 @@ def run_impl(c):
             gate.set_verbosity(cfg["verb"])
         init = io.fetch_error()
         bar = ProgressBar(target, cfg["max"], cfg["min"])
+        if cfg["minset"] is not None:
+            bar.min_seconds_between_redraws(cfg["minset"])
         bar.set_bar_width(cfg["bw"])
         if cfg["pc"] != ">":
             bar.set_progress_character(cfg["pc"])
@@ -251,7 +293,10 @@ def run_impl(c):
             bar.set_format(fmt_string(CUSTOM[cfg["fmt"]]))
         if cfg["msg"] is not None:
             bar.set_message(cfg["msg"])
+        if cfg["named"] is not None:
+            bar.set_message(cfg["named"], "title")
         trace = []
+        states = []      # the bar's own (current step, maximum) after every call: what a frame has to show
         t = termemu.Term(cfg["w"])
         t.feed(init)
         per_op = []      # section outputs: the screen and the bar section's content after every call
@@ -280,15 +325,37 @@ def run_impl(c):
             delta = io.fetch_error()[len(before):]
             t.feed(delta)
             trace.append([Clock.now, termemu.tokens(delta)])
+            states.append([bar.get_progress(), bar.get_max_steps()])
             if secs:
                 per_op.append([list(t.screen()), t.r, t.c, secs[0].content])
         contents = [[[S(l) for l in s.content.split("\n")[:-1]] if s.content else [], s.lines] for s in secs]
         # get_progress_percent() is a float quotient of two small integers: the reduced fraction names it exactly
         pct = Fraction(bar.get_progress_percent()).limit_denominator(10 ** 6)
         return [trace, [bar.get_progress(), bar.get_max_steps(), pct.numerator, pct.denominator], [[S(r) for r in t.screen()], t.r, t.c],
-                io.fetch_output(), 0, termemu.tokens(init), contents, per_op, builtin_formats(ProgressBar)]
+                io.fetch_output(), 0, termemu.tokens(init), contents, per_op, builtin_formats(ProgressBar), states]
     finally:
         time.time = real
+
+
+def tty_io():
+    """an IO on buffers that say they support ANSI (a terminal), with an AnsiFormatter that is not forced"""
+    from clikit.api.io import IO, Input, Output
+    from clikit.io.input_stream import StringInputStream
+    from clikit.io.output_stream import BufferedOutputStream
+    from clikit.formatter import AnsiFormatter
+
+    class Tty(BufferedOutputStream):
+        def supports_ansi(self):
+            return True
+
+    class TtyIO(IO):
+        def fetch_output(self):
+            return self.output.stream.fetch()
+
+        def fetch_error(self):
+            return self.error_output.stream.fetch()
+    f = AnsiFormatter()
+    return TtyIO(Input(StringInputStream("")), Output(Tty(), f), Output(Tty(), f))
 
 
 def builtin_formats(cls):
@@ -326,7 +393,8 @@ def good_line(l):
 
 def good_case(c):
     cfg = norm_cfg(c["cfg"])
-    msgs = ([cfg["msg"]] if cfg["msg"] is not None else []) + [o[1] for _, o in c["ops"] if o[0] == 6]
+    msgs = ([cfg["msg"]] if cfg["msg"] is not None else []) + [o[1] for _, o in c["ops"] if o[0] == 6] \
+        + ([cfg["named"]] if cfg["named"] is not None and cfg["fmt"] == "c5" else [])
     texts = ([cfg["below"]] if cfg["below"] is not None else []) + [o[1] for _, o in c["ops"] if o[0] == 7]
     return all(good_line(m) for m in msgs + [cfg["pc"]]) and all(good_line(l) for t in texts for l in t.split("\n"))
 
@@ -348,10 +416,14 @@ def in_history_class(c):
 
 
 # ---- decoding a frame by its format ----
-_TIME = r"(?:< 1 sec|1 sec|\d+ secs|1 min|\d+ mins|1 hr|\d+ hrs|1 day|\d+ days)"
 
 
-def frame_regex(pieces, msg):
+ANY = r"[^\n]*?"      # a field the statement does not speak of: any text without a line break, as short as the anchors allow
+
+
+def frame_regex(pieces):
+    """the pattern of a frame of this format: literal parts as they are (blanks may pad every line), current step / maximum /
+    bar segment / percentage decoded, every other placeholder - durations, messages, named messages - lenient"""
     rx = ""
     for p in pieces:
         k = p[0]
@@ -365,12 +437,8 @@ def frame_regex(pieces, msg):
             rx += r"(?P<bar>[=>-]*)"
         elif k == 4:
             rx += r" *(?P<pct>\d+) *"
-        elif k in (5, 8):
-            rx += " *" + _TIME + " *"
-        elif k == 6:
-            rx += r" *\d+ *"
         else:
-            rx += re.escape("%message%" if msg is None else msg)
+            rx += ANY
     return re.compile(rx + r" *\Z")
 
 
@@ -386,49 +454,40 @@ def rows_of(lines, w):
 
 
 def oracle(c, o):
+    """The statement of C16 on what the real code did - and nothing beyond it.  A frame is decoded by a pattern built from
+    the format: the literal parts of the format are the anchors, the fields the statement speaks of (current step, maximum,
+    bar segment, percentage) are decoded, every other placeholder (elapsed / remaining / estimated time, messages) matches any
+    text without a line break: how a duration or a message is written is not the property's business.  'Current step' and
+    'maximum' are the bar's own (get_progress() / get_max_steps() after the call): the statement does not say how a step
+    beyond the maximum is treated, only that what is shown is the current step, within 0..maximum, with its percentage."""
     cfg = norm_cfg(c["cfg"])
     kind = cfg["kind"]
     fmtp = CUSTOM[cfg["fmt"]] if cfg["fmt"] else None
     if o and o[0] == "EXC":
-        if o[1] == "RuntimeError" and cfg["fmt"] in NEEDS_MAX and "maximum number of steps is not set" in o[2] \
+        if o[1] == "RuntimeError" and cfg["fmt"] in NEEDS_MAX \
                 and (cfg["max"] <= 0 or any(op[0] == 0 and op[1] is not None and op[1] <= 0 for _, op in c["ops"])):
-            return None      # %estimated% / %remaining% on a bar without maximum: the documented refusal
+            return None      # %estimated% / %remaining% on a bar without maximum: the documented refusal (whatever its wording)
         return "exception:" + o[1]
-    trace, (step, mx, _pn, _pd), (screen, scr_r, scr_c), stdout, _unused, init, contents, per_op, builtin = o
+    trace, (step, mx, _pn, _pd), (screen, scr_r, scr_c), stdout, _unused, init, contents, per_op, builtin, states = o
     if stdout != "":
         return "wrote-to-standard-output"
-    if step < 0 or (mx > 0 and step > mx):
-        return "step-out-of-range"
     quiet, plain, section = is_quiet(kind), not is_ansi(kind), kind == "section"
     flc = fmt_string(fmtp).count("\n") if fmtp else 0
     w = cfg["w"]
     below = cfg["below"].split("\n") if (is_section(kind) and cfg["below"] is not None) else []
-    msg = cfg["msg"]
-    sim_max, sim_step = max(0, cfg["max"]), 0
+    prev = None               # the bar's (step, maximum) before the call
     last_draw = None          # clock value of the previous write of the bar
     latest = None             # the text of the latest write of the bar (lines), None before the first
     latest_frame = None       # the decoded latest FRAME (not a clear)
     nwrites = 0
+    ends_nl = False           # plain output: the previous write of the bar ended with a line break
     for i, ((now, toks), (dt, op)) in enumerate(zip(trace, c["ops"])):
-        # the bookkeeping the property talks about (maximum growth, clamping), restated independently
-        if op[0] == 0:
-            sim_step = 0
-            if op[1] is not None:
-                sim_max = max(0, op[1])
-        elif op[0] in (1, 2):
-            st = sim_step + op[1] if op[0] == 1 else op[1]
-            if sim_max and st > sim_max:
-                sim_max = st
-            elif st < 0:
-                st = 0
-            sim_step = st
-        elif op[0] == 5:
-            if not sim_max:
-                sim_max = sim_step
-            sim_step = sim_max
-        elif op[0] == 6:
-            msg = op[1]
-        elif op[0] == 7:
+        st_step, st_max = states[i]
+        reached = st_max > 0 and st_step == st_max and prev != (st_step, st_max)
+        prev = (st_step, st_max)
+        if st_step < 0 or (st_max > 0 and st_step > st_max):
+            return "step-out-of-range"
+        if op[0] == 7:
             below = below + op[1].split("\n")
         if section or kind == "quietsection":
             # the section clause of C15, after every call: the screen is the bar's section on top of the section below
@@ -445,7 +504,7 @@ def oracle(c, o):
             if toks:
                 return "quiet-output-received-bytes"
             continue
-        if op[0] in (1, 2) and sim_max > 0 and sim_step == sim_max and not toks:
+        if op[0] in (1, 2) and reached and not toks:
             return "reaching-the-maximum-did-not-draw"
         if op[0] == 5 and not plain and not toks:
             return "finish-did-not-draw"
@@ -458,21 +517,25 @@ def oracle(c, o):
             else:
                 text = text_of(toks)
                 if plain:
-                    # every frame on its own line: a line break before every frame but the first, none after it
-                    if nwrites > 0 and not text.startswith("\n"):
-                        return "plain-frames-not-on-own-lines"
-                    text = text[1:] if nwrites > 0 else text
+                    # every frame on its own line: a line break between two frames, written behind the one or before the other
+                    # (one line break is the separator; a frame may itself begin with an empty line - an empty message)
+                    if nwrites > 0 and not ends_nl:
+                        if not text.startswith("\n"):
+                            return "plain-frames-not-on-own-lines"
+                        text = text[1:]
+                    ends_nl = text.endswith("\n")
+                    if ends_nl:
+                        text = text[:-1]
                 lines = text.split("\n")
             if len(lines) != flc + 1:
                 return "plain-frames-not-on-own-lines" if plain else "frame-not-well-formed"
             nwrites += 1
             latest = lines
             if op[0] != 4:
-                vmsg = None if msg is None else visible(msg)[0]
                 cands = [fmtp] if fmtp else [parse_fmt(f) for f in builtin]
                 m = None
                 for pieces in cands:
-                    m = frame_regex(pieces, vmsg).match("\n".join(lines))
+                    m = frame_regex(pieces).match("\n".join(lines))
                     if m:
                         break
                 if not m:
@@ -480,28 +543,29 @@ def oracle(c, o):
                 g = m.groupdict()
                 if g.get("bar") is not None and len(g["bar"]) != cfg["bw"]:
                     return "bar-segment-width"
-                if g.get("cur") is not None and int(g["cur"]) != sim_step:
+                if g.get("cur") is not None and int(g["cur"]) != st_step:
                     return "shown-step-is-not-the-current-step"
                 if g.get("max") is not None:
-                    if int(g["max"]) != sim_max:
+                    if int(g["max"]) != st_max:
                         return "shown-maximum-is-not-the-maximum"
                     if g.get("cur") is not None and int(g["max"]) > 0 and int(g["cur"]) > int(g["max"]):
                         return "shown-step-out-of-range"
-                if g.get("pct") is not None and sim_max > 0 and int(g["pct"]) != sim_step * 100 // sim_max:
+                # the matching percentage: less than one point away from 100 * step / maximum (rounded down or to the nearest)
+                if g.get("pct") is not None and st_max > 0 and abs(int(g["pct"]) * st_max - 100 * st_step) >= st_max:
                     return "shown-percentage-wrong"
                 latest_frame = g
                 # throttle: a redraw caused by advancing that does not reach the maximum
-                if op[0] in (1, 2) and last_draw is not None and sim_step != sim_max \
-                        and Fraction(now - last_draw, 1000) < Fraction(cfg["min"]):
+                if op[0] in (1, 2) and last_draw is not None and st_step != st_max \
+                        and Fraction(now - last_draw, 1000) < Fraction(min_interval(cfg)):
                     return "redraw-inside-the-minimum-interval"
             last_draw = now
         # finish: the last frame after finish shows the maximum at 100 % (on a plain output it may be the frame drawn when
         # the maximum was reached: it is not written twice)
-        if op[0] == 5 and sim_max > 0:
+        if op[0] == 5 and st_max > 0:
             g = latest_frame
             if g is None:
                 return "finish-did-not-draw"
-            if (g.get("cur") is not None and int(g["cur"]) != sim_max) or (g.get("pct") is not None and g["pct"] != "100") \
+            if (g.get("cur") is not None and int(g["cur"]) != st_max) or (g.get("pct") is not None and g["pct"] != "100") \
                     or (g.get("max") is not None and g.get("cur") is not None and g["max"] != g["cur"]):
                 return "finish-not-at-100-percent"
     if quiet:
@@ -525,7 +589,7 @@ def shrink(c):
     for i in range(len(ops)):
         yield {"cfg": c["cfg"], "ops": ops[:i] + ops[i + 1:]}
     cfg = norm_cfg(c["cfg"])
-    for k, v in (("msg", None), ("fmt", None), ("verb", 0), ("rf", None), ("maxs", 1), ("below", None), ("pc", ">")):
+    for k, v in (("msg", None), ("fmt", None), ("verb", 0), ("rf", None), ("maxs", 1), ("below", None), ("pc", ">"), ("out", None), ("minset", None)):
         if cfg[k] != v and not (k == "fmt" and any(o[0] == 6 for _, o in ops)):
             yield {"cfg": dict(cfg, **{k: v}), "ops": ops}
     for i, (dt, o) in enumerate(ops):
